@@ -370,8 +370,8 @@ func (c *C04Copy) Run() string {
 
 // ---------------------------------------------------------------- cells
 
-var c04ViewKinds = []string{"sliced", "stepsliced", "lazyT", "slicedT", "Tsliced", "picked", "leadsliced", "cmraw+sliced", "cmraw+lazyT"}
-var c04SrcKinds = []string{"contig", "sliced", "stepsliced", "lazyT", "slicedT", "Tsliced", "picked", "materialized", "clonedview", "physT", "cmraw", "cmconv", "cmraw+sliced"}
+var c04ViewKinds = []string{"sliced", "stepsliced", "lazyT", "slicedT", "Tsliced", "picked", "pickslice", "leadsliced", "cmraw+sliced", "cmraw+lazyT"}
+var c04SrcKinds = []string{"contig", "sliced", "stepsliced", "lazyT", "slicedT", "Tsliced", "picked", "pickslice", "materialized", "clonedview", "physT", "cmraw", "cmconv", "cmraw+sliced"}
 var c04DTs = []DT{dtInt8, dtBool, dtInt16, dtF32, dtF64, dtC128, dtStr, dtUint32}
 
 func TestC04(t *testing.T) {
